@@ -121,3 +121,32 @@ fn c01_k1_release_oneshot() {
     kani::cover!(deferred && n == 2, "deferred by one-shot");
     kani::cover!(!deferred && n < 2, "released normally while another one-shot key is active");
 }
+
+// @harness name=c01_k1_release_overflow prop=C01,C06 tier=quick timeout=1800
+// @encodes Layout::dequeue (Release arm, overflow of the deferred-release ring), OneShotState::handle_release, State::release
+// @inst Layout<3, 2, u8>
+// @bounds 16 deferred one-shot releases already recorded (the oldest for key (0,1), the others for (0,2)); one-shot keys (0,1), (0,2) and (0,0) active; key states [LShift at (0,1), LCtrl at (0,0)]; the still-held one-shot key (0,0) is released
+// @assumes none beyond the bounds
+// @spec deferring a 17th release evicts the OLDEST deferred release and applies it at once: the evicted key's state is removed, so no one-shot key can be left pressed for ever; the newly released key's state stays (its release is deferred)
+#[kani::proof]
+#[kani::unwind(19)]
+fn c01_k1_release_overflow() {
+    let mut l: Layout<'static, 3, 2, u8> = vk_layout_literal(&VK_SRC, &VK_LAYERS);
+    let _ = l.states.push(NormalKey { keycode: KeyCode::LCtrl, coord: (0, 0), flags: NormalKeyFlags(0) });
+    let _ = l.states.push(NormalKey { keycode: KeyCode::LShift, coord: (0, 1), flags: NormalKeyFlags(0) });
+    let _ = l.oneshot.keys.push_back((0, 0));
+    let _ = l.oneshot.keys.push_back((0, 1));
+    let _ = l.oneshot.keys.push_back((0, 2));
+    l.oneshot.end_config = vk_c06_any_end_config();
+    l.oneshot.timeout = kani::any();
+    let _ = l.oneshot.released_keys.push_back((0, 1));
+    let mut k = 1;
+    while k < 16 {
+        let _ = l.oneshot.released_keys.push_back((0, 2));
+        k += 1;
+    }
+    let ev = l.dequeue(Queued { event: Event::Release(0, 0), since: kani::any() });
+    assert!(matches!(ev, CustomEvent::NoEvent));
+    assert!(l.states.len() == 1, "the evicted (oldest) deferred release is applied immediately");
+    core::mem::forget(l);
+}
